@@ -342,7 +342,7 @@ ES_COVER = {
     "life": (("{1}", "{7}", 2, 1, '{"close","peer","heartbeat","overlap","closewin","lastonly"}'),
              ("{1,2}", "{7}", 3, 1, '{"close","peer","heartbeat","overlap","closewin","lastonly"}')),
     "upg": (("{1}", "{}", 2, 0, '{"upgrade","close","window","late","closewin","lastonly"}'),
-            ("{1}", "{7}", 3, 1, '{"upgrade","close","window","late","closewin","heartbeat","lastonly"}')),
+            ("{1}", "{7}", 3, 0, '{"upgrade","close","window","late","closewin","lastonly"}')),
     "poll": (("{1}", "{}", 3, 0, '{"overlap","peer","close","abort","window","dwindow","lastonly"}'),
              ("{1,2}", "{7}", 3, 0, '{"overlap","peer","close","abort","window","dwindow","lastonly"}')),
 }
